@@ -1,4 +1,5 @@
 import Exetera.Lemmas.MergeFrame
+import Exetera.Lemmas.MergeAuto
 /-! Helper lemmas for C02, part 4: `merge` as a whole — the validating front end, and the destination frame of
     `orderedMerge` / `unorderedMerge` given what each column loop produces. -/
 namespace Exetera.Merge
@@ -284,12 +285,12 @@ theorem orderedMerge_frame (i : Input) (ltm rtm : List String) (ll rl : Nat) (lu
     rows: every mapped column is the selected rows of its source under the documented name, `valid_l` / `valid_r` and all
     other columns have one row per pair, there are no other columns -/
 theorem unorderedMerge_frame (pandas : String → List Int → List Int → Except Err Pairs) (i : Input)
-    (ltm rtm : List String) (pairs : Pairs) (cap : Nat)
+    (ltm rtm : List String) (pairs : Pairs)
     (hpd : pandas i.how i.lk i.rk = .ok pairs)
     (hselL : ∀ x, some x ∈ pairs.map (·.1) → x < i.lk.length)
     (hselR : ∀ x, some x ∈ pairs.map (·.2) → x < i.rk.length)
-    (hL : ∀ k ∈ ltm, ∃ c, look i.left k = some c ∧ ColOK c i.lk.length cap)
-    (hR : ∀ k ∈ rtm, ∃ c, look i.right k = some c ∧ ColOK c i.rk.length cap)
+    (hL : ∀ k ∈ ltm, ∃ c, look i.left k = some c ∧ ColWF c i.lk.length)
+    (hR : ∀ k ∈ rtm, ∃ c, look i.right k = some c ∧ ColWF c i.rk.length)
     (hnd : (ltm.map (fun k => if rtm.contains k then k ++ i.leftSuffix else k) ++ ["valid" ++ i.leftSuffix]
       ++ rtm.map (fun k => if ltm.contains k then k ++ i.rightSuffix else k) ++ ["valid" ++ i.rightSuffix]).Nodup) :
     ∃ dest, unorderedMerge pandas i ltm rtm = .ok dest ∧
@@ -317,12 +318,12 @@ theorem unorderedMerge_frame (pandas : String → List Int → List Int → Exce
   have hL' : ∀ k ∈ ltm, ∃ c out, look i.left k = some c ∧ safeMapColumn c lsel = .ok out ∧ selectCol c lsel = some out := by
     intro k hk
     obtain ⟨c, h1, h2⟩ := hL k hk
-    obtain ⟨out, g1, g2⟩ := safeMapColumn_spec c i.lk.length lsel (Or.inr ⟨cap, h2⟩) hselL
+    obtain ⟨out, g1, g2⟩ := safeMapColumn_spec_wf c i.lk.length lsel h2 hselL
     exact ⟨c, out, h1, g1, g2⟩
   have hR' : ∀ k ∈ rtm, ∃ c out, look i.right k = some c ∧ safeMapColumn c rsel = .ok out ∧ selectCol c rsel = some out := by
     intro k hk
     obtain ⟨c, h1, h2⟩ := hR k hk
-    obtain ⟨out, g1, g2⟩ := safeMapColumn_spec c i.rk.length rsel (Or.inr ⟨cap, h2⟩) hselR
+    obtain ⟨out, g1, g2⟩ := safeMapColumn_spec_wf c i.rk.length rsel h2 hselR
     exact ⟨c, out, h1, g1, g2⟩
   obtain ⟨gl1, gl2⟩ := loop_good i.left (fun c => safeMapColumn c lsel) lname ltm lsel hL'
   obtain ⟨gr1, gr2⟩ := loop_good i.right (fun c => safeMapColumn c rsel) rname rtm rsel hR'
